@@ -818,7 +818,7 @@ pub fn run_c11(tier: &Tier, args: &[String]) -> i32 {
 /// the publication server's content. `expect_current`: whether the snapshot
 /// must equal the list replies (i.e. nothing is staged and the last write
 /// completed).
-fn files_consistent(w: &World, expect_current: bool) -> Vec<(String, String)> {
+pub fn files_consistent(w: &World, expect_current: bool) -> Vec<(String, String)> {
     let mut v = Vec::new();
     let notif_bytes = match std::fs::read(rrdp_dir().join("notification.xml")) {
         Ok(b) => b,
